@@ -75,9 +75,6 @@ impl CwVal for NativeBalance {
     open spec fn ser_ok(&self) -> bool { true }
     uninterp spec fn de(b: Seq<u8>) -> StdResult<Self>;
 }
-impl Uint128 {
-    pub fn is_zero(&self) -> (r: bool) ensures r == (self.u == 0) { self.u == 0 }
-}
 
 // further NativeBalance API (single-coin forms): uninterpreted results, related to the list forms only by name
 pub uninterp spec fn nb_sub1(a: Seq<Coin>, c: Coin) -> StdResult<Seq<Coin>>;
